@@ -74,3 +74,9 @@ package main
 //@ func main.indexArg
 //@   guard call:Readlink by field:isSymlink
 //@   guard call:ReadFile by !field:isSymlink
+
+// C12: the deferred clean-up of indexArg (same contract as gitindex.indexGitRepo$1).
+//@ func main.indexArg$1
+//@   may_panic
+//@   requires builder != nil && !effectFailed
+//@   assert at call:Finish: retErr == nil || builder.buildError != nil
